@@ -26,6 +26,10 @@ func (m *patternMatcher) reset(si int) {
 
 func (m *patternMatcher) find() []Capture {
 	for si := m.si; si <= len(m.s); si++ {
+		// Every start position tried costs one unit, whether or not the
+		// attempt consumes any input: otherwise scanning a long subject for
+		// something that is not there is free.
+		m.consumeBudget()
 		m.reset(si)
 		if captures := m.matchToEnd(); captures != nil {
 			return captures
